@@ -92,6 +92,10 @@ struct Offer {
     bundle: bool,
     /// ICE/DTLS attributes at session level instead of in every m-section (WebRTC flavour only).
     sess_level: bool,
+    /// RFC 8843 7.1.3 shape: the transport attributes (ICE credentials, fingerprint, a=setup)
+    /// appear ONLY in this section - the BUNDLE-tagged one, listed first in a=group:BUNDLE -
+    /// and nowhere else (WebRTC flavour, bundled offers only)
+    tag: Option<u8>,
 }
 
 #[derive(Clone, Copy, PartialEq, Eq, Debug)]
@@ -149,7 +153,13 @@ fn render(o: &Offer, fl: Flavor, version: u32) -> String {
         transport(&mut s);
     }
     if o.bundle {
-        let mids: Vec<String> = o.secs.iter().enumerate().filter_map(|(i, x)| mid_of(x, i)).collect();
+        let mut mids: Vec<String> = o.secs.iter().enumerate().filter_map(|(i, x)| mid_of(x, i)).collect();
+        if let Some(t) = o.tag {
+            if let Some(tm) = o.secs.get(t as usize).and_then(|x| mid_of(x, t as usize)) {
+                mids.retain(|m| *m != tm);
+                mids.insert(0, tm);
+            }
+        }
         if !mids.is_empty() {
             s.push_str(&format!("a=group:BUNDLE {}\r\n", mids.join(" ")));
         }
@@ -184,7 +194,7 @@ fn render(o: &Offer, fl: Flavor, version: u32) -> String {
         s.push_str(&format!("m={} {} {} {}\r\n", x.kind.name(), port, proto, fmts));
         if fl == Flavor::WebRtc {
             s.push_str("c=IN IP4 0.0.0.0\r\n");
-            if !o.sess_level {
+            if !o.sess_level && o.tag.map_or(true, |t| t as usize == i) {
                 transport(&mut s);
             }
         }
@@ -277,7 +287,7 @@ fn offer_json(o: &Offer) -> Value {
         "sections": o.secs.iter().map(|x| json!({
             "kind": x.kind.name(), "mid": format!("{:?}", x.mid), "codec": x.codec, "ext": x.ext,
             "dir": DIRS[x.dir as usize], "rtcp_mux": x.mux})).collect::<Vec<_>>(),
-        "setup": SETUPS[o.setup as usize], "bundle": o.bundle, "session_level_transport": o.sess_level,
+        "setup": SETUPS[o.setup as usize], "bundle": o.bundle, "session_level_transport": o.sess_level, "transport_only_in_section": o.tag,
     })
 }
 
@@ -1218,7 +1228,7 @@ fn build_space(tier: Tier, ci: usize) -> (Vec<Case>, String) {
                     for &sess_level in &levels {
                         cases.push(Case {
                             cfg: ci,
-                            offer: Offer { secs: vec![s.clone()], setup, bundle, sess_level },
+                            offer: Offer { secs: vec![s.clone()], setup, bundle, sess_level, tag: None },
                             change: None,
                             block: "A:n=1",
                         });
@@ -1241,7 +1251,7 @@ fn build_space(tier: Tier, ci: usize) -> (Vec<Case>, String) {
                 for &bundle in &[true, false] {
                     cases.push(Case {
                         cfg: ci,
-                        offer: Offer { secs: w.clone(), setup, bundle, sess_level: false },
+                        offer: Offer { secs: w.clone(), setup, bundle, sess_level: false, tag: None },
                         change: None,
                         block: "B:n=2",
                     });
@@ -1264,7 +1274,7 @@ fn build_space(tier: Tier, ci: usize) -> (Vec<Case>, String) {
             }
             for w in words {
                 for &bundle in &[true, false] {
-                    cases.push(Case { cfg: ci, offer: Offer { secs: w.clone(), setup: 0, bundle, sess_level: false }, change: None, block: "B2:mux-per-section" });
+                    cases.push(Case { cfg: ci, offer: Offer { secs: w.clone(), setup: 0, bundle, sess_level: false, tag: None }, change: None, block: "B2:mux-per-section" });
                     n_b += 1;
                 }
             }
@@ -1291,7 +1301,7 @@ fn build_space(tier: Tier, ci: usize) -> (Vec<Case>, String) {
                     for &bundle in &[true, false] {
                         cases.push(Case {
                             cfg: ci,
-                            offer: Offer { secs: w.clone(), setup: 0, bundle, sess_level: false },
+                            offer: Offer { secs: w.clone(), setup: 0, bundle, sess_level: false, tag: None },
                             change: None,
                             block: "C:n=3..6",
                         });
@@ -1312,12 +1322,12 @@ fn build_space(tier: Tier, ci: usize) -> (Vec<Case>, String) {
         let mut bases: Vec<Offer> = vec![];
         for s in &d1 {
             for &bundle in &[true, false] {
-                bases.push(Offer { secs: vec![s.clone()], setup: 0, bundle, sess_level: false });
+                bases.push(Offer { secs: vec![s.clone()], setup: 0, bundle, sess_level: false, tag: None });
             }
         }
         for w in product2(&d2) {
             for &bundle in &[true, false] {
-                bases.push(Offer { secs: w.clone(), setup: 0, bundle, sess_level: false });
+                bases.push(Offer { secs: w.clone(), setup: 0, bundle, sess_level: false, tag: None });
             }
         }
         let mut n_d = 0u64;
@@ -1348,7 +1358,7 @@ fn build_space(tier: Tier, ci: usize) -> (Vec<Case>, String) {
                         secs.push(video(s.mid));
                     }
                     for &bundle in &[true, false] {
-                        let o = Offer { secs: secs.clone(), setup: 0, bundle, sess_level: false };
+                        let o = Offer { secs: secs.clone(), setup: 0, bundle, sess_level: false, tag: None };
                         cases.push(Case { cfg: ci, offer: o.clone(), change: None, block: "E:formatless" });
                         n_e += 1;
                         if s.dir == 0 {
@@ -1361,9 +1371,30 @@ fn build_space(tier: Tier, ci: usize) -> (Vec<Case>, String) {
                 }
             }
         }
+        // Block F (WebRTC configurations): bundled offers whose transport attributes appear only in
+        // the BUNDLE-tagged section, that section being the first, second or third one, for every
+        // offered a=setup value; first and second negotiation.
+        let mut n_f = 0u64;
+        if webrtc {
+            let base: Vec<Sec> = vec![
+                Sec { kind: Kind::Audio, mid: Mid::Numeric, codec: 1, ext: 1, dir: 0, mux: true },
+                Sec { kind: Kind::Video, mid: Mid::Numeric, codec: 0, ext: 1, dir: 0, mux: true },
+                Sec { kind: Kind::App, mid: Mid::Numeric, codec: 0, ext: 0, dir: 0, mux: false },
+            ];
+            for w in product2(&base).into_iter().chain(words(&base, 3).into_iter().filter(|w| w.iter().filter(|x| x.kind == Kind::App).count() <= 1)) {
+                for tag in 0..w.len() as u8 {
+                    for setup in 0..SETUPS.len() as u8 {
+                        let o = Offer { secs: w.clone(), setup, bundle: true, sess_level: false, tag: Some(tag) };
+                        cases.push(Case { cfg: ci, offer: o.clone(), change: None, block: "F:tagged-transport" });
+                        cases.push(Case { cfg: ci, offer: o, change: Some(0), block: "F:tagged-transport-second" });
+                        n_f += 2;
+                    }
+                }
+            }
+        }
         let d = format!(
-            "cfg={}: A(n=1)={} B(n=2)={} C(n=3..6)={} D(two negotiations)={} E(formatless sections)={}",
-            c.name, n_a, n_b, n_c, n_d, n_e
+            "cfg={}: A(n=1)={} B(n=2)={} C(n=3..6)={} D(two negotiations)={} E(formatless sections)={} F(transport only in the tagged section)={}",
+            c.name, n_a, n_b, n_c, n_d, n_e, n_f
         );
         (cases, d)
     }
